@@ -24,6 +24,7 @@ class Ctx:
         self.rep = Report(prop, tier, self.p, write_evidence=write_evidence, evidence_dir=evidence_dir)
         self._kernel: Optional[Kernel] = None
         self._path_cache: Dict[tuple, List[Path]] = {}
+        self._stable_cache: Dict[str, set] = {}
 
     @property
     def thorough(self) -> bool:
@@ -58,11 +59,51 @@ class Ctx:
 
         return pred
 
+    def stable_attrs(self, fn: FuncInfo) -> set:
+        """Attributes of `self` (class family of fn) assigned only in __init__ and not holding a
+        mutable container / lock: their identity and truth value cannot change during a call."""
+        if fn.cls is None:
+            return set()
+        if fn.cls.name in self._stable_cache:
+            return self._stable_cache[fn.cls.name]
+        fam = set(self.p.mro(fn.cls)) | set(self.p.subclasses(fn.cls))
+        mutable_ctors = {"deque", "Lock", "RLock", "list", "dict", "set", "defaultdict", "OrderedDict", "Semaphore", "Condition"}
+        cand = {}
+        for c in fam:
+            for ms in c.methods.values():
+                for m in ms:
+                    if m.name != "__init__":
+                        continue
+                    for n in ast.walk(m.node):
+                        tgt, val = None, None
+                        if isinstance(n, ast.Assign) and len(n.targets) == 1:
+                            tgt, val = n.targets[0], n.value
+                        elif isinstance(n, ast.AnnAssign):
+                            tgt, val = n.target, n.value
+                        if isinstance(tgt, ast.Attribute) and isinstance(tgt.value, ast.Name) and tgt.value.id == "self":
+                            mut = isinstance(val, (ast.List, ast.Dict, ast.Set, ast.ListComp, ast.DictComp, ast.SetComp)) or (
+                                isinstance(val, ast.Call) and (getattr(val.func, "id", None) or getattr(val.func, "attr", None)) in mutable_ctors)
+                            cand[tgt.attr] = cand.get(tgt.attr, True) and not mut
+        stable = {a for a, okk in cand.items() if okk}
+        for f in self.p.all_functions():
+            if f.name == "__init__":
+                continue
+            for n in ast.walk(f.node):
+                if isinstance(n, ast.Attribute) and isinstance(n.ctx, (ast.Store, ast.Del)) and n.attr in stable:
+                    stable.discard(n.attr)
+                if isinstance(n, ast.Call) and isinstance(n.func, ast.Name) and n.func.id in ("setattr", "delattr"):
+                    if len(n.args) >= 2 and not isinstance(n.args[1], ast.Constant):
+                        pass  # dynamic names are used for model fields / event binding only (checked by C10/C13)
+                    elif len(n.args) >= 2 and n.args[1].value in stable:
+                        stable.discard(n.args[1].value)
+        self._stable_cache[fn.cls.name] = stable
+        return stable
+
     def paths(self, fn: FuncInfo, inline="helpers", exc_edges="try", unroll: Optional[int] = None,
-              base_exc=False, max_depth=3, bindings=None) -> List[Path]:
+              base_exc=False, max_depth=3, bindings=None, may_raise=None) -> List[Path]:
         if unroll is None:
             unroll = 3 if self.thorough else 2
-        key = (fn.key, str(inline), exc_edges, unroll, base_exc, max_depth)
+        key = (fn.key, str(inline), exc_edges, unroll, base_exc, max_depth, may_raise)
         if key in self._path_cache and bindings is None:
             return self._path_cache[key]
         pred = None
@@ -71,7 +112,8 @@ class Ctx:
         elif callable(inline):
             pred = inline
         e = Enumerator(self.p, self.r, inline=pred, max_depth=max_depth, unroll=unroll,
-                       exc_edges=exc_edges, base_exc=base_exc)
+                       exc_edges=exc_edges, base_exc=base_exc, may_raise=may_raise,
+                       stable_self_attrs=self.stable_attrs(fn))
         ps = e.paths(fn, bindings)
         self.rep.note_fn(fn)
         self.rep.note_paths(len(ps))
